@@ -282,6 +282,14 @@ def exec_for(I, st, frame):
         elem = spec.element(S, L) if spec.element is not None else None
         head = Namespace(snapshot(dict(frame.locals)))
         pre_elem = snapshot(elem)
+        try:        # make the arbitrary iteration visible in counter-models
+            gt = getattr(ctx, "ghost_template", None)
+            if gt is not None:
+                gt["loop_element"] = pre_elem
+                for k in getattr(L, "_written", ()):
+                    gt["loop_state." + k] = snapshot(frame.locals.get(k))
+        except Exception:
+            pass
         yf = frame
         while yf is not None and yf.yielded is None:
             yf = yf.parent
